@@ -400,11 +400,18 @@ class Parser:
                     raise JSONPathSyntaxError(
                         "leading zero in index selector", token=stream.current
                     )
+                try:
+                    index = int(stream.current.value)
+                except ValueError:
+                    raise JSONPathSyntaxError(
+                        f"invalid index selector {stream.current.value!r}",
+                        token=stream.current,
+                    ) from None
                 list_items.append(
                     IndexSelector(
                         env=self.env,
                         token=stream.current,
-                        index=int(stream.current.value),
+                        index=index,
                     )
                 )
             elif stream.current.kind == TOKEN_BARE_PROPERTY:
@@ -528,10 +535,20 @@ class Parser:
 
     def parse_integer_literal(self, stream: TokenStream) -> FilterExpression:
         # Convert to float first to handle scientific notation.
-        return IntegerLiteral(value=int(float(stream.current.value)))
+        try:
+            return IntegerLiteral(value=int(float(stream.current.value)))
+        except OverflowError:
+            raise JSONPathSyntaxError(
+                "number literal out of range", token=stream.current
+            ) from None
 
     def parse_float_literal(self, stream: TokenStream) -> FilterExpression:
-        return FloatLiteral(value=float(stream.current.value))
+        value = float(stream.current.value)
+        if value in (float("inf"), float("-inf")):
+            raise JSONPathSyntaxError(
+                "number literal out of range", token=stream.current
+            )
+        return FloatLiteral(value=value)
 
     def parse_prefix_expression(self, stream: TokenStream) -> FilterExpression:
         tok = stream.next_token()
@@ -623,7 +640,12 @@ class Parser:
             stream.next_token()
             for flag in set(stream.current.value):
                 flags |= self.RE_FLAG_MAP[flag]
-        return RegexLiteral(value=re.compile(pattern, flags))
+        try:
+            return RegexLiteral(value=re.compile(pattern, flags))
+        except re.error as err:
+            raise JSONPathSyntaxError(
+                f"invalid regular expression: {err}", token=stream.current
+            ) from None
 
     def parse_list_literal(self, stream: TokenStream) -> FilterExpression:
         stream.next_token()
